@@ -10,7 +10,7 @@ func timedScen(name string, n int, oracle string, opts ...opt) *Scenario {
 	sc := scen(name, n, opts...)
 	sc.Timed = true
 	sc.Oracle = oracle
-	sc.Dev = Dev{Reorder: true, Dup: true, Perm: true, Hold: true}
+	sc.Dev = Dev{Reorder: true, Dup: true, Perm: true, Hold: true, SlowReset: true}
 	sc.MaxView = 3
 	return sc
 }
